@@ -65,6 +65,14 @@ def fix_wikipedia_siteinfo(siteinfo):
 
 
 
+_edges_rex = re.compile("^[\\s\u200e\u200f]+|[\\s\u200e\u200f]+$")
+
+
+def strip_edges(text):
+    """strip whitespace and directional marks (LRM/RLM), in any mix, from both ends"""
+    return _edges_rex.sub("", text)
+
+
 class NsHandler:
     def __init__(self, siteinfo):
         if siteinfo is None:
@@ -126,9 +134,9 @@ class NsHandler:
     def splitname(self, title, defaultns=0):
         if not isinstance(title, str):
             title = title.decode('utf-8') if isinstance(title, bytes) else str(title)
-        name = re.sub(r' +', ' ', title.replace("_", " ").strip())
+        name = re.sub(r' +', ' ', strip_edges(title.replace("_", " ")))
         if name.startswith(":"):
-            name = name[1:].strip()
+            name = strip_edges(name[1:])
             defaultns = 0
 
         if ":" in name:
@@ -141,7 +149,7 @@ class NsHandler:
             suffix = name
             nsnum = defaultns
 
-        suffix = suffix.strip("\u200e\u200f")
+        suffix = strip_edges(suffix)
         suffix = self.maybe_capitalize(suffix)
         if prefix:
             prefix += ":"
